@@ -365,7 +365,9 @@ static void run_history(void)
 static const struct {
 	const char *call;
 	int err;
-} ACCF[] = {{"accept", ECONNABORTED}, {"accept", EMFILE}, {"accept", EINTR}, {"accept", ENFILE}, {"accept", ENOBUFS}, {"accept", ENOMEM}, {"accept", EPROTO}, {"fcntl", EINVAL}, {"setsockopt", EINVAL}, {"getsockname", EINVAL}};
+} ACCF[] = {{"accept", ECONNABORTED}, {"accept", EMFILE}, {"accept", EINTR}, {"accept", ENFILE}, {"accept", ENOBUFS}, {"accept", ENOMEM}, {"accept", EPROTO}, {"fcntl", EINVAL}, {"setsockopt", EINVAL}, {"getsockname", EINVAL},
+      /* "malloc", n: the n-th allocation made on behalf of the new connection fails (a connection attempt that aborts for lack of memory) */
+      {"malloc", 1}, {"malloc", 2}, {"malloc", 3}, {"malloc", 4}, {"malloc", 5}, {"malloc", 6}};
 #define NACCF ((int)(sizeof(ACCF) / sizeof(ACCF[0])))
 
 static void run_accept(void)
@@ -382,10 +384,28 @@ static void run_accept(void)
 	snprintf(what, sizeof(what), "a connection attempt on listener %d whose %s fails with errno %d, before step %d", listener, ACCF[f].call, ACCF[f].err, pos);
 	for (int i = 0; i <= NHIST; i++) {
 		if (!twin && i == pos) {
-			sim_fail_next(ACCF[f].call, ACCF[f].err, -1);
+			bool nomem = strcmp(ACCF[f].call, "malloc") == 0;
+			if (nomem) {
+				sim_heap_fail_nth(ACCF[f].err);
+			} else {
+				sim_fail_next(ACCF[f].call, ACCF[f].err, -1);
+			}
 			int c = cl_open(listener == 1 ? CL_BYTES : CL_RAW, listener == 0 ? ROLE_JET : listener == 1 ? ROLE_HTTP : ROLE_UDS, ORG_DEFAULT);
+			if (nomem && listener == 1) {
+				sim_client_send(c, CL_WS_UPGRADE_REQUEST, strlen(CL_WS_UPGRADE_REQUEST)); /* the websocket peer is built when the request arrives */
+			}
 			jx_settle();
-			(void)c;
+			if (nomem) {
+				long fired = sim_heap_failures();
+				sim_heap_fail_nth(0);
+				if (fired == 0) {
+					xp_end_run(); /* setting this connection up takes fewer allocations */
+				}
+				if (!sim_conn_closed_by_daemon(c)) {
+					sim_client_fin(c);
+					jx_settle();
+				}
+			}
 			if (sim_daemon_exited()) {
 				char key[100];
 				snprintf(key, sizeof(key), "daemon-stops:%s:errno=%d", ACCF[f].call, ACCF[f].err);
@@ -444,6 +464,6 @@ const struct driver drv_c11 = {
     .name = "c11",
     .property = "C11",
     .run = run,
-    .rule = "section 0: a 15-step history of healthy traffic between H1 (raw) and H2 (websocket) - change, add, remove, re-add, routed set/call with owner replies, a second fetch, get, requests routed to X - x 7 faults of the peer X that subscribed first (stops reading, one writev fails, reset seen by writev / epoll / read, invalid JSON, oversize length) x every position of the history x {X only subscribes, X also owns elements, X also has a routed request in flight to H1 that H1 answers in the middle of the history}; deviation budget 1: a second event later on (window opens again / X is reset); section 1: a fourth party's connection attempt on each of the 3 listeners with accept failing (ECONNABORTED, EMFILE, EINTR, ENFILE, ENOBUFS, ENOMEM, EPROTO) or fcntl / setsockopt / getsockname failing, at every position; oracle: H1's, H2's and a fresh peer's decoded streams equal the healthy twin's line by line, except that a response may be replaced by an error response with the same id; notifications about X's own elements are ignored; nobody but X is dropped; the listener still accepts; resources return to baseline",
+    .rule = "section 0: a 15-step history of healthy traffic between H1 (raw) and H2 (websocket) - change, add, remove, re-add, routed set/call with owner replies, a second fetch, get, requests routed to X - x 7 faults of the peer X that subscribed first (stops reading, one writev fails, reset seen by writev / epoll / read, invalid JSON, oversize length) x every position of the history x {X only subscribes, X also owns elements, X also has a routed request in flight to H1 that H1 answers in the middle of the history}; deviation budget 1: a second event later on (window opens again / X is reset); section 1: a fourth party's connection attempt on each of the 3 listeners with accept failing (ECONNABORTED, EMFILE, EINTR, ENFILE, ENOBUFS, ENOMEM, EPROTO) or fcntl / setsockopt / getsockname failing, or the n-th allocation (n = 1..6) made for the new connection failing, at every position; oracle: H1's, H2's and a fresh peer's decoded streams equal the healthy twin's line by line, except that a response may be replaced by an error response with the same id; notifications about X's own elements are ignored; nobody but X is dropped; the listener still accepts; resources return to baseline",
     .assumptions = "param big = size of the values (with the 5120-byte write buffer of the default build the buffer of a stalled peer only fills with large values; the tiny build has a 96-byte buffer)|an error response instead of a success response is tolerated for every request of a healthy peer as long as all other output (notifications, get results) is identical, i.e. the request took effect",
 };
